@@ -121,6 +121,20 @@ func c04Gen(r *rand.Rand, tier string, idx int) any {
 		c.Hist = append(c.Hist, e)
 	}
 	if r.Intn(3) == 0 {
+		// a wrapped single line next to a multi-line entry of short lines: walking from one to
+		// the other puts continuation rows on rows that held wrapped text the frame before
+		long := c04Text(r, "ascii", c.W+c.W/2+r.Intn(c.W))
+		short := "one\ntwo\nthree"
+		if r.Intn(2) == 0 {
+			short = "if x\n  then y\n  else z\nfi"
+		}
+		pair := []string{strings.TrimSpace(long), short}
+		if r.Intn(2) == 0 {
+			pair[0], pair[1] = pair[1], pair[0]
+		}
+		c.Hist = append(c.Hist, pair...)
+	}
+	if r.Intn(3) == 0 {
 		c.Pre = r.Intn(c.H + 3)
 	}
 	// plan: recall an entry, then edit / move so that consecutive frames grow and shrink
